@@ -125,6 +125,9 @@ From(S, p) == SelectSeq(S, LAMBDA e: e[1] >= p)
 \* a recorded walk w = [start, p, moves]: the Get results a sorted list would give, as <<k, v>> (<<0, 0>> = no entry)
 Take(sq, n) == SubSeq(sq, 1, IF n > Len(sq) THEN Len(sq) ELSE n)
 G(x) == IF x[1] = "none" THEN <<0, 0>> ELSE IF x[1] = "panic" THEN <<-1, -1>> ELSE <<x[2], x[3]>>
+\* a walk is judged up to and including its first "no entry"
+FirstOff(gs) == LET Z == {j \in DOMAIN gs : gs[j] = <<0, 0>>} IN IF Z = {} THEN Len(gs) ELSE Min(Z)
+UpToOff(gs) == SubSeq(gs, 1, FirstOff(gs))
 StartPos(S, w) == IF w.start = "min" THEN Norm(S, 1) ELSE IF w.start = "max" THEN Norm(S, Len(S)) ELSE CeilPos(S, w.p)
 RECURSIVE PosSeq(_, _, _, _)
 PosSeq(S, pos, moves, j) == IF j > Len(moves) THEN <<>> ELSE LET np == MovePos(S, pos, moves[j]) IN <<np>> \o PosSeq(S, np, moves, j + 1)
